@@ -183,6 +183,84 @@ pub mod verif {
     ) -> Option<&'a str> {
         super::router::authority_matched_cert_name(authority, names)
     }
+
+    /// `h2::error_nom_to_h2` (private): the H2 error code the connection sends
+    /// in GOAWAY when `parser::frame_body` fails.
+    pub fn error_nom_to_h2(
+        error: nom::Err<super::parser::ParserError>,
+    ) -> super::parser::H2Error {
+        super::h2::verif_error_nom_to_h2(error)
+    }
+
+    /// Shape of a parser error without naming `nom` in the caller:
+    /// `incomplete`, `<error|failure>:h2:<code>` or `<error|failure>:nom:<kind>`.
+    pub fn parser_error_class(error: &nom::Err<super::parser::ParserError>) -> String {
+        use super::parser::ParserErrorKind as K;
+        let (variant, e) = match error {
+            nom::Err::Incomplete(_) => return "incomplete".to_owned(),
+            nom::Err::Error(e) => ("error", e),
+            nom::Err::Failure(e) => ("failure", e),
+        };
+        match &e.kind {
+            K::H2(code) => format!("{variant}:h2:{}", *code as u32),
+            K::Nom(kind) => format!("{variant}:nom:{kind:?}"),
+        }
+    }
+
+    /// `h2::H2FloodDetector` (module private, counters `pub(super)`): read and
+    /// write access to the counters and to the age of the rate window, so the
+    /// harness can replay the handlers' increments around the real
+    /// `check_flood` / `record_rst_*` / `reset_continuation`.
+    pub mod flood {
+        pub use super::super::h2::{H2FloodConfig, H2FloodDetector, H2FloodViolation};
+
+        /// rst, rst_lifetime, rst_abusive_lifetime, rst_emitted_lifetime, ping,
+        /// ping_lifetime, settings, settings_lifetime, empty_data, wu_stream0,
+        /// continuation, accumulated_header_size, glitch
+        pub fn counters(d: &H2FloodDetector) -> [u64; 13] {
+            [
+                d.rst_stream_count as u64,
+                d.total_rst_received_lifetime,
+                d.total_abusive_rst_received_lifetime,
+                d.total_rst_streams_emitted_lifetime,
+                d.ping_count as u64,
+                d.total_ping_received_lifetime as u64,
+                d.settings_count as u64,
+                d.total_settings_received_lifetime as u64,
+                d.empty_data_count as u64,
+                d.window_update_stream0_count as u64,
+                d.continuation_count as u64,
+                d.accumulated_header_size as u64,
+                d.glitch_count as u64,
+            ]
+        }
+
+        pub fn set_counters(d: &mut H2FloodDetector, c: [u64; 13]) {
+            d.rst_stream_count = c[0] as u32;
+            d.total_rst_received_lifetime = c[1];
+            d.total_abusive_rst_received_lifetime = c[2];
+            d.total_rst_streams_emitted_lifetime = c[3];
+            d.ping_count = c[4] as u32;
+            d.total_ping_received_lifetime = c[5] as u32;
+            d.settings_count = c[6] as u32;
+            d.total_settings_received_lifetime = c[7] as u32;
+            d.empty_data_count = c[8] as u32;
+            d.window_update_stream0_count = c[9] as u32;
+            d.continuation_count = c[10] as u32;
+            d.accumulated_header_size = c[11] as u32;
+            d.glitch_count = c[12] as u32;
+        }
+
+        /// pretend the current rate window started `age` ago
+        pub fn set_window_age(d: &mut H2FloodDetector, age: std::time::Duration) {
+            let now = std::time::Instant::now();
+            d.window_start = now.checked_sub(age).unwrap_or(now);
+        }
+
+        pub fn window_age(d: &H2FloodDetector) -> std::time::Duration {
+            d.window_start.elapsed()
+        }
+    }
 }
 
 use crate::metrics::names;
